@@ -129,6 +129,19 @@ func forCases(n int, stream uint64, tag string, f func(i int, r *rng, id string)
 	}
 }
 
+func envOnly() string { return os.Getenv("VERIF_ONLY") }
+
+func shard() (int, int) {
+	sh, nsh := 0, 1
+	if s := os.Getenv("VERIF_SHARD"); s != "" {
+		fmt.Sscanf(s, "%d/%d", &sh, &nsh)
+		if nsh < 1 {
+			sh, nsh = 0, 1
+		}
+	}
+	return sh, nsh
+}
+
 func hx(b []byte) string {
 	if len(b) == 0 {
 		return "-"
